@@ -121,8 +121,24 @@ def unmentioned_ok(spec):
 
 def check(case, ctx):
     spec = specgen.normalise(case["spec"], ctx.flags | {"no-allopts"}, ctx)
-    G = build(spec)
-    ref = Ref(spec)
+    late = case.get("late_effects")
+    late_def = None
+    if late:
+        # the effects of one dataset are attached with add_effects() only after the graph has been in use
+        derived_from = set()
+        specgen.walk(spec, lambda n: derived_from.add(n["base"]) if n["k"] == "derived" else None)
+        # (objects derived from a dataset before the attachment are datasets of their own and keep their effect lists)
+        late_def = [d for d in spec["defs"] if d.get("effects") and d["name"] not in derived_from]
+        late_def = late_def[late["def"] % len(late_def)] if late_def else None
+    if late_def:
+        early = copy.deepcopy(spec)
+        [d for d in early["defs"] if d["name"] == late_def["name"]][0].pop("effects")
+        G = build(early)
+        ref_early, ref_full = Ref(early), Ref(spec)
+        ref = ref_full
+    else:
+        G = build(spec)
+        ref = ref_early = ref_full = Ref(spec)
     if "no-coalesce-value-failure" in ctx.flags:
         for st_ in case["steps"]:
             if "o" in st_ and "coalesce-absorbed-value-failure" in ref.run(st_["o"]).labels:
@@ -169,7 +185,17 @@ def check(case, ctx):
     succeeded = {}  # canon(o) of steps that succeeded (by index) -> for repeat detection
     nontrivial = False
     origin = []
+    attach_at = (1 + late["at"] % (len(hist) - 1)) if late_def and len(hist) > 1 else None
     for i, o in enumerate(hist):
+        if late_def:
+            ref = ref_early if (attach_at is None or i < attach_at) else ref_full
+        if i == attach_at:
+            if late.get("touch"):
+                run(getattr(G.ds[late_def["name"]], late["touch"]), hist[i - 1])
+            G.ds[late_def["name"]].add_effects(*[G._effect(e) for e in late_def["effects"]])
+            # the effects' own options now belong to the dataset's keys: everything stored so far may be recomputed
+            runs.clear(); bound_sets.clear(); failed_visits.clear()
+            labels.add("effects-attached-after-use")
         r = ref.run(o)
         for name, visits in r.visit_ok.items():
             for e, ok in visits:
@@ -190,7 +216,9 @@ def check(case, ctx):
         if kinds[i] == "repeat" and i > 0:
             src = step["of"] % i
             labels.add("repeat-class:" + step["t"])
-            if origin[src]["ok"]:
+            if attach_at is not None and src < attach_at <= i:
+                pass   # not a repeat as far as the cache is concerned: the dataset was reconfigured in between
+            elif origin[src]["ok"]:
                 stable = (r.must - r.spec_bodies) & cacheable
                 again = set(ran) & stable
                 if again:
@@ -217,7 +245,7 @@ def check(case, ctx):
             logs = collections.Counter(e[1] for e in events if e[0] == "log")
             for d in spec["defs"]:
                 effs = d.get("effects", [])
-                if not effs:
+                if not effs or (late_def and d["name"] == late_def["name"] and ref is ref_early):
                     continue
                 if any(not ok for _, ok in r.visit_ok.get(d["name"], [])):
                     continue  # a computation that failed was logged but (rightly) ran no effect
@@ -264,7 +292,11 @@ def cases(draw, prof, maxlen):
         else:
             o = draw(U.option_dicts(p_present=p))
             steps.append({"t": "fresh", "o": o}); mats.append(o)
-    return {"spec": spec, "steps": steps}
+    case = {"spec": spec, "steps": steps}
+    if any(d.get("effects") for d in spec["defs"]) and draw(st.integers(0, 2)) == 0:
+        case["late_effects"] = {"def": draw(st.integers(0, 5)), "at": draw(st.integers(0, 15)),
+                                "touch": draw(st.sampled_from([None, "validate", "keys", "explain"]))}
+    return case
 
 
 PROFILE = specgen.profile(max_defs=6, depth=2, domain_rate=0.01)
